@@ -11,7 +11,7 @@ LEVEL_TEXT["C14"] = (
     "HILBERTFILTER -- for every accepted tap vector (odd length M >= 3), every stream, every framing: real part of output k is x[k - M/2] (0 before), "
     "imaginary part is sum_{j<=k} h[j] x[k-j] (hf_eq, on top of C07's FirFilter theorems); design_fir returns M = flen|1 taps for every ifft. "
     "Tie: hand-written model (Model/Hilbert.lean; fft/ifft instantiated with the C01 plan model, FirFilter/kaiser/firtype with the C07/C11 models) "
-    "against the library: bit-exact for Tuner (streams to 6.5 fs, rates 8..1e5), Delay, design_fir taps (all lengths/tw sampled), "
+    "against the library: bit-exact for Tuner (streams to 6.5 fs, rates 8..1e5; counter values around 2^16, 2^24 and, thorough, 2^31 and 2^32 of single-object streams), Delay, design_fir taps (all lengths/tw sampled), "
     "HilbertFilter::process; hilbert to 1e-10 of the line scale (Bluestein lengths differ by 6e-13). "
     "Measured only: the 1e-3 quadrature accuracy of the designed filter over max(2 tw, 6/M) <= f <= 0.5 - max(2 tw, 6/M) (worst observed 7.1e-5, "
     "time domain on process() outputs and long-double frequency response of impz()), and all rounding (hilbert: 64 n eps normwise; Tuner: 1e-9 + 4 eps phase)."
@@ -23,7 +23,8 @@ PROPS["C14"] = {
     "harness": [{"src": "c14.cpp", "cfg": "rel",
                  "tol": {"hilb": (1e-10, 0.0), "hilbg": (1e-10, 0.0), "hilbn": (1e-10, 0.0),
                          "hfd": (1e-13, 0.0), "hfp": (1e-13, 0.0), "tun": (1e-13, 0.0), "tunx": (1e-13, 0.0),
-                         "dlyR": (0.0, 0.0), "dlyC": (0.0, 0.0), "dlyI": (0.0, 0.0), "dlyJ": (0.0, 0.0)}}],
+                         "dlyR": (0.0, 0.0), "dlyC": (0.0, 0.0), "dlyI": (0.0, 0.0), "dlyJ": (0.0, 0.0),
+                         "tunk": (1e-13, 0.0), "hfg": (1e-12, 0.0), "dlygR": (0.0, 0.0), "dlygC": (0.0, 0.0)}}],
     "rule": "hilbert: quick = 124 lengths in 3..4096 (all 3..48, 2^p and 2^p +-1, primes, highly composite, 40 random), thorough = EVERY length 3..4096; "
             "x 9 signal kinds {gauss, gauss with DC and Nyquist projected out, pure DC, alternating (pure Nyquist for even n), tone on a bin centre, tone off "
             "bin, DC+Nyquist+tones, impulse, 2^+-20 dynamic range}; oracle per case: every sample of the real part, and long-double DFT of the output on the "
@@ -38,6 +39,25 @@ PROPS["C14"] = {
             "fractional), beyond the band (rejected)}, streams of 3..6 fs + ragged tail (to 6.5 fs; 3 fs for fs > 20000), framings {one call, 2..7 random cuts "
             "with empty frames, frames of length 0, 1, fs-1, fs, fs+1, random}; every sample against long-double exp(2 pi i f k/fs); framed run bit-compared "
             "with a one-call run of a second object. Delay: 30 / 120 cases (real / complex, zero / given initial contents, nd 1..200, 1..6 frames) + Delay(0). "
+            "Round-2 classes. OBJECT LIFETIME (HilbertFilter from (flen, tw) and from taps, Tuner, DelayReal / DelayCmplx with and without initial contents): 9 ways of copying "
+            "{copy-construction, copy-assignment over a live object of other parameters, elements of vector(3, obj), by-value lambda capture held in a std::function, copy of a copy whose "
+            "intermediate is destroyed, a copy that is used and destroyed, self-assignment, moved copy, source assigned from its own copy} x {fresh prototype, mid-stream} x 2 / 8 "
+            "repetitions; afterwards source and copies continue INTERLEAVED with data of their own while all are alive; every object is compared bit for bit (sign of zero included) "
+            "with a separately constructed object fed the same frames, checked against the definition (delay: bits; Tuner: long-double phase; HilbertFilter: real part bits, imaginary "
+            "part = long-double sum h[j] x[t-j] within 4 M eps sum|h||x|), and sent through CORR; one case in three has FAILED CALLS interleaved (hilbert n < 3, rejected taps, "
+            "rejected Tuner frequency, Delay(0).process). TEMPORARIES: 10 expressions (temporary processor objects, rvalue operands a | b, a + b, -b, a * c, results bound to const& "
+            "or iterated by range-for) x 8 / 40 inputs = named-operand form bit for bit. VALUE CLASSES for every numeric input (signals, initial contents, taps): absolute scales "
+            "1e-300, 1e-17, 1e-8, 1, 1e8, 1e100, runs of +0 / -0, denormals, exact powers of two (every third Tuner case, all lifetime cases, 12 / 36 scaled-tap filters); Tuner "
+            "frequencies 4.9e-324, -1e-300, 1e-17, -eps, -0.0 and one ulp inside / outside +-fs/2; HilbertFilter tw one ulp inside both ends of [0.005, 0.1]. LARGE FRAMES after short "
+            "ones: 1 / 6 patterns (137, 20000, 1, 70000, 513, 140000, 7; multiples of 65536 and 49152; 2^k + 1; an empty frame followed by 262144) x 2 / 3 filters and delays (nd 1 .. 70001): "
+            "HilbertFilter real part at every sample, imaginary part around every frame boundary + 2500 / 6000 random samples, and bit-equality with a second object fed frames of 4099; "
+            "CORR by digest of generated streams (hfg, dlygR, dlygC). hilbert beyond the swept range: 4097, the first prime above 46340, 65536, twice that prime "
+            "(thorough: + 14 lengths to 147456). LONG TUNER STREAMS on worker threads, EVERY sample checked (exact anchors every 4096 samples with f k / fs reduced mod 1 in 128-bit integer "
+            "arithmetic, long-double rotation in between): quick = 3 objects of 2^24 + 2^18..2^20 samples (integer f, f = 0.3, random fractional f; constant 2^20 and mixed frames "
+            "incl. 65537, 131073, k * 49152, 3 * 2^19, empty and tiny frames around the powers of two) + frame boundaries at residues of frames of 2, 3, 5, 7, 16, 17 around k = 2^16 "
+            "(thorough: every residue) and of frames of 3 and 16 around k = 2^24 (quick 4, thorough all 19); thorough = additionally ONE object beyond 2^32 + 2^21 samples (f = 0.3, fs = 1e5) "
+            "and four beyond 2^31 + 2^20 (integer f, random fractional f, -(fs/2 - 0.5), 1e-3), i.e. across the 32-bit signed and unsigned limits of the sample counter; 64 outputs "
+            "around k = 2^16, 2^24, 2^31, 2^32 and at the end of every stream are recomputed by the model from the counter value (tunk). "
             "distinct = distinct protocol lines; non-trivial = all",
     "technique": "Lean 4 proof over hand-written state-explicit models (generic scalar; Float in the driver, R / C in the theorems) + own DFT lemma library "
                  "(inverse pair, conjugate symmetry, analytic-signal lemma) + differential correspondence on the real library + long-double oracle of the "
@@ -54,6 +74,7 @@ PROPS["C14"] = {
     ],
     "assumptions": ["hilbert: n >= 3 (for n < 3 the code throws: modelled and checked as exception cases)",
                     "HilbertFilter(flen, tw): tw/fs below ~1/4 so that design_fir's pass-band is non-empty (else the code throws std::length_error: modelled as an exception); the property's domain is tw <= 0.1",
-                    "Tuner: fs >= 1 (the phase divides by fs); the 64-bit sample counter does not overflow (2^63 samples)",
+                    "Tuner: fs >= 1 (the phase divides by fs); the 64-bit sample counter does not overflow (2^63 samples); streams beyond 2^31 / 2^32 samples through one object are exercised in the thorough tier only (a quick run stops at 2^24 + 2^20: reaching sample 2^31 costs 2^31 sin/cos pairs, about a minute)",
+                    "HilbertFilter(taps): firtype() compares with the absolute tolerance 2 eps, so taps that are all below 4.4e-16 are classified symmetric and refused; recorded (stat hf_scaled_taps_refused_by_firtype_absolute_tolerance) and reproduced by the model, not part of the property's domain (flen, tw)",
                     "Delay(0) throws at the first process() (slice constructor): modelled (delayProcessE) and checked as an exception case"],
 }
